@@ -116,6 +116,7 @@ impl<R: Read + Seek> ReadBox<&mut R> for MetaBox {
             // Get box header.
             let header = BoxHeader::read(reader)?;
             let BoxHeader { name, size: s } = header;
+            check_child_size(s)?;
 
             match name {
                 BoxType::HdlrBox => {
@@ -146,6 +147,7 @@ impl<R: Read + Seek> ReadBox<&mut R> for MetaBox {
                     // Get box header.
                     let header = BoxHeader::read(reader)?;
                     let BoxHeader { name, size: s } = header;
+                    check_child_size(s)?;
 
                     match name {
                         BoxType::IlstBox => {
@@ -169,6 +171,7 @@ impl<R: Read + Seek> ReadBox<&mut R> for MetaBox {
                     // Get box header.
                     let header = BoxHeader::read(reader)?;
                     let BoxHeader { name, size: s } = header;
+                    check_child_size(s)?;
 
                     match name {
                         BoxType::HdlrBox => {
